@@ -35,7 +35,10 @@ def gen_element(rng, kind, idx, formats=None):
         if r < 0.45:
             el["min"], el["max"], el["step"] = None, None, 0
         elif r < 0.8:
-            el["min"], el["max"], el["step"] = rng.choice([0, -90, -1000.5]), rng.choice([100, 90, 1000.5]), rng.choice([0, 1, 0.5])
+            # incl. declared floats that need more than six significant digits / an exponent to be written faithfully
+            el["min"], el["max"], el["step"] = (rng.choice([0, -90, -1000.5, -2415020.5, -0.30000000000000004]),
+                                                rng.choice([100, 90, 1000.5, 23.9999999, 2415020.5, 1e+16]),
+                                                rng.choice([0, 1, 0.5, 1 / 3600, 1e-07]))
         else:
             el["min"], el["max"], el["step"] = 0, None, 1
         if rng.random() < 0.7:
@@ -59,7 +62,7 @@ def gen_vector(rng, idx, kind=None, uniq="", formats=None):
         if rng.random() < 0.5:
             v["perm"] = rng.choice(G.PERMS)
         if rng.random() < 0.4:
-            v["timeout"] = rng.choice([0, 5, 60, 2.5])
+            v["timeout"] = rng.choice([0, 5, 60, 2.5, 59.99999, 86400.125])
     if kind == "Switch":
         v["rule"] = rng.choice(G.RULES)
         names = [e["name"] for e in v["elements"]]
